@@ -1,5 +1,5 @@
 // c02_flat_large.hpp — tree-shape sub-checks for LARGE flat_map / flat_set (300 keys: beyond any 8-bit
-// size, index or search bound). One case = (insertion order, insertion method); keys 0..299 are inserted in
+// size, index or search bound). One case = (insertion order, insertion method); keys 0..299 (0..599 under the coarse comparator) are inserted in
 // ascending, descending or period-7 shuffled order; at the sizes 255..257 and at the end every key and a few
 // absent ones are looked up through count / find / at / operator[] / size and compared with the reference
 // (RefMapT / a sorted key list; in TUs that can include the host headers the real std::map / std::set run
@@ -9,8 +9,9 @@
 
 namespace c02
 {
-    static const int LARGE_KEYS = 300;
-    inline int large_key(int order, int i)
+    // 300 keys; 600 under the coarse comparator so that the number of entries still crosses 255/256
+    template <class Cmp> inline int large_nkeys() { return std::is_same<Cmp, HalfLess>::value ? 600 : 300; }
+    inline int large_key(int LARGE_KEYS, int order, int i)
     {
         switch (order)
         {
@@ -27,7 +28,7 @@ namespace c02
         mc::violation(mc::fmt("C02.%s.large.%s.%s", variant.c_str(), op.c_str(), kind), "%s", msg.c_str());
     }
 
-    template <class Map, class Ref> bool large_map_lookup(const string &variant, const string &op, Map &m, Ref &r)
+    template <class Map, class Ref> bool large_map_lookup(const string &variant, const string &op, Map &m, Ref &r, int LARGE_KEYS)
     {
         const Map &cm = m;
         if ((size_t)m.size() != r.size() || m.empty() != (r.size() == 0))
@@ -75,6 +76,7 @@ namespace c02
     // method: 0 insert(value), 1 operator[] write, 2 emplace
     template <class Map, class StdRef, class Cmp> void large_map_body(const string &variant)
     {
+        const int LARGE_KEYS = large_nkeys<Cmp>();
         int c = mc::choose(3 * 3);
         int order = c % 3, method = c / 3;
         static const char *on[] = {"ascending", "descending", "period-7 shuffled"}, *mn[] = {"insert", "index_write", "emplace"};
@@ -88,7 +90,7 @@ namespace c02
         uint64_t steps = 0;
         for (int i = 0; i < LARGE_KEYS; i++)
         {
-            int k = large_key(order, i), v = k * 3 + 1;
+            int k = large_key(LARGE_KEYS, order, i), v = k * 3 + 1;
             bool was = r.find(k) != nullptr;
             if (method == 0)
             {
@@ -121,17 +123,17 @@ namespace c02
                 return;
             }
             if (r.size() >= 255 && r.size() <= 257)
-                if (!large_map_lookup(variant, op, m, r))
+                if (!large_map_lookup(variant, op, m, r, LARGE_KEYS))
                     return;
         }
         if (!s.agrees(r))
             mc::harness_error("RefMap and std::map disagree in %s", variant.c_str());
-        if (!large_map_lookup(variant, op, m, r))
+        if (!large_map_lookup(variant, op, m, r, LARGE_KEYS))
             return;
         // overwrite through operator[] / at, copy, clear
         op = "copy_ctor";
         Map m2(m);
-        if (!large_map_lookup(variant, op, m2, r))
+        if (!large_map_lookup(variant, op, m2, r, LARGE_KEYS))
             return;
         op = "index_write";
         for (int k : {0, 1, 254, 255, 256, 257, LARGE_KEYS - 1})
@@ -139,12 +141,12 @@ namespace c02
             m[k] = -k;
             r.index(k) = -k;
         }
-        if (!large_map_lookup(variant, op, m, r))
+        if (!large_map_lookup(variant, op, m, r, LARGE_KEYS))
             return;
         op = "clear";
         m.clear();
         r.clear();
-        if (!large_map_lookup(variant, op, m, r))
+        if (!large_map_lookup(variant, op, m, r, LARGE_KEYS))
             return;
         mc::more_cases(steps, steps);
         mc::outcome(mc::fmt("%d/%d", order, method));
@@ -152,6 +154,7 @@ namespace c02
 
     template <class Set, class StdRef, class Cmp> void large_set_body(const string &variant)
     {
+        const int LARGE_KEYS = large_nkeys<Cmp>();
         int c = mc::choose(3 * 2);
         int order = c % 3, rv = c / 3;
         static const char *on[] = {"ascending", "descending", "period-7 shuffled"};
@@ -191,7 +194,7 @@ namespace c02
         };
         for (int i = 0; i < LARGE_KEYS; i++)
         {
-            const int k = large_key(order, i);
+            const int k = large_key(LARGE_KEYS, order, i);
             bool present = std::find_if(ref.begin(), ref.end(), [&](int e) { return equiv<Cmp>(e, k); }) != ref.end();
             if (rv)
                 st.insert(int(k));
@@ -219,7 +222,7 @@ namespace c02
             return;
         // inserting everything again changes nothing
         for (int i = 0; i < LARGE_KEYS; i++)
-            st.insert(large_key(2, i));
+            st.insert(large_key(LARGE_KEYS, 2, i));
         if (!lookup("insert_present"))
             return;
         Set copy(st);
